@@ -577,6 +577,311 @@ def oracle(ctx):
     ctx.stats['oracle:iterations'] = N
 
 
+
+# ---------------------------------------------------------------------------------------------
+# argument forms: every constructor / operand position with int lists, int tuples, int32 / int64 arrays and mixed
+# lists must give what the float64 form gives (a line whose coordinates were given as integers is the same line)
+# ---------------------------------------------------------------------------------------------
+FORMS = ('list', 'tuple', 'int32', 'int64', 'mixed')
+
+
+def as_form(form, a):
+    a = [int(x) for x in np.asarray(a).flatten()]
+    if form == 'float':
+        return np.array(a, dtype=np.float64)
+    if form == 'list':
+        return list(a)
+    if form == 'tuple':
+        return tuple(a)
+    if form == 'int32':
+        return np.array(a, dtype=np.int32)
+    if form == 'int64':
+        return np.array(a, dtype=np.int64)
+    if form == 'float32':
+        return np.array(a, dtype=np.float32)
+    if form == 'mixed':
+        return [float(a[0])] + a[1:]
+    raise ValueError(form)
+
+
+def canon(r):
+    """canonical, comparable form of a library result"""
+    if r is None:
+        return ('none',)
+    if isinstance(r, Plucker):
+        return ('line', len(r)) + tuple(float(x) for x in np.asarray(r.vec if len(r) == 1 else np.concatenate(r.data), float).flatten())
+    if isinstance(r, Plane):
+        return ('plane',) + tuple(float(x) for x in np.asarray(r.plane, float))
+    if isinstance(r, (bool, np.bool_)):
+        return ('bool', bool(r))
+    if isinstance(r, tuple) and hasattr(r, '_fields'):
+        out = ('nt',)
+        for x in r:
+            out += tuple(float(y) for y in np.asarray(x, float).flatten())
+        return out
+    if isinstance(r, list) and r and isinstance(r[0], (bool, np.bool_)):
+        return ('bools',) + tuple(bool(x) for x in r)
+    return ('num',) + tuple(float(x) for x in np.asarray(r, float).flatten())
+
+
+def outcome(f):
+    try:
+        with np.errstate(all='ignore'):
+            return canon(f())
+    except Exception as ex:  # noqa
+        return ('raises', type(ex).__name__)
+
+
+def same_outcome(a, b, tol=1e-12):
+    if len(a) != len(b) or a[0] != b[0]:
+        return False
+    for x, y in zip(a[1:], b[1:]):
+        if isinstance(x, float) and isinstance(y, float):
+            if math.isnan(x) and math.isnan(y):
+                continue
+            if not abs(x - y) <= tol * max(1.0, abs(y)):
+                return False
+        elif x != y:
+            return False
+    return True
+
+
+def form_ops(F, d):
+    """the calls of one configuration d (integer data) with every array argument given in the form F"""
+    T, Ti = d['T'], d['Ti']
+    mk6 = lambda: Plucker(F(d['L6']))
+    mkvw = lambda: Plucker(F(d['L6'][:3]), F(d['L6'][3:]))
+    mk2 = lambda: Plucker(F(d['M6']))
+    ops = {
+        'Plucker(vec6)': lambda: mk6(),
+        'Plucker(v,w)': lambda: mkvw(),
+        'PQ': lambda: Plucker.PQ(F(d['P']), F(d['Q'])),
+        'PointDir': lambda: Plucker.PointDir(F(d['P']), F(d['w'])),
+        'Planes(arrays)': lambda: Plucker.Planes(F(d['a']), F(d['b'])),
+        'Planes(Plane,Plane)': lambda: Plucker.Planes(Plane(F(d['a'])), Plane(F(d['b']))),
+        'Plane': lambda: Plane(F(d['a'])),
+        'Plane.PN': lambda: Plane.PN(F(d['P']), F(d['w'])),
+        'Plane.contains': lambda: Plane.PN(F(d['P']), F(d['w'])).contains(F(d['P'])),
+        'pp': lambda: mk6().pp, 'ppd': lambda: mk6().ppd, 'uw': lambda: mkvw().uw, 'v': lambda: mk6().v, 'w': lambda: mkvw().w,
+        'vec': lambda: mkvw().vec, 'skew': lambda: mk6().skew,
+        'point': lambda: mk6().point(d['lam']), 'point(list)': lambda: mkvw().point([d['lam'], -d['lam']]),
+        'closest': lambda: mk6().closest(F(d['x'])), 'closest(v,w)': lambda: mkvw().closest(F(d['x'])),
+        'contains:on': lambda: mk6().contains(F(d['on'])), 'contains:off': lambda: mkvw().contains(F(d['x'])),
+        'SE3*L(vec6)': lambda: SE3(T, check=False) * mk6(), 'SE3*L(v,w)': lambda: SE3(T, check=False) * mkvw(),
+        'SE3(int)*L(vec6)': lambda: SE3(*[int(t) for t in Ti]) * mk6(), 'SE3(int)*L(v,w)': lambda: SE3(*[int(t) for t in Ti]) * mkvw(),
+        'SE3*PQ': lambda: SE3(T, check=False) * Plucker.PQ(F(d['P']), F(d['Q'])),
+        'SE3*SE3*L': lambda: SE3(T, check=False) * (SE3(*[int(t) for t in Ti]) * mk6()),
+        'recip': lambda: mk6() * mk2(), 'eq': lambda: mk6() == mk2(), 'eq:self': lambda: mk6() == mkvw(), 'ne': lambda: mk6() != mk2(),
+        'parallel-op': lambda: mk6() | mk2(), 'intersect-op': lambda: mk6() ^ mk2(), 'isparallel': lambda: mkvw().isparallel(mk2()),
+        'commonperp': lambda: mk6().commonperp(mk2()), 'distance': lambda: mkvw().distance(mk2()), 'intersects': lambda: mk6().intersects(mk2()),
+        'intersect_plane(array)': lambda: mk6().intersect_plane(F(d['a'])), 'intersect_plane(Plane)': lambda: mkvw().intersect_plane(Plane(F(d['a']))),
+    }
+    return ops
+
+
+def forms_check(ctx, O, d):
+    ref = {k: outcome(f) for k, f in form_ops(lambda a: as_form('float', a), d).items()}
+    # the float form of SE3 * line against elementary geometry (the integer forms are compared with it below)
+    R, t = d['T'][:3, :3], d['T'][:3, 3]
+    v, w = np.array(d['L6'][:3], float), np.array(d['L6'][3:], float)
+    w2 = R @ w
+    v2 = R @ v - np.cross(t, w2)
+    rp0 = {'check': 'forms', 'data': {k: np.asarray(x).tolist() for k, x in d.items()}}
+    O.ok('forms:SE3*L:float-reference', same_outcome(ref['SE3*L(vec6)'], ('line', 1) + tuple(np.r_[v2, w2]), 1e-9),
+         "SE3 * Plucker(float 6-vector) is not (R v - t x R w, R w)", rp0)
+    for form in FORMS:
+        got = {k: outcome(f) for k, f in form_ops(lambda a: as_form(form, a), d).items()}
+        ctx.case(('forms', form, tuple(d['L6']), tuple(d['M6']), tuple(d['x'])))
+        for k in ref:
+            ctx.count('oracle:forms')
+            if not same_outcome(got[k], ref[k]):
+                ctx.fail(f'oracle:forms:{k}', f"{k} with arguments given as {form} differs from the same call with float64 arrays: "
+                         f"{got[k][:8]} instead of {ref[k][:8]}", dict(rp0, form=form, op=k, got=list(got[k]), ref=list(ref[k])))
+
+
+def int_config(rng):
+    """small-integer configuration: a valid line (v = w x p), a second line, points, planes, a rigid motion with a
+    non-integer rotation and translation, an integer translation"""
+    def ivec(lo=-6, hi=7, nz=True):
+        while True:
+            v = rng.integers(lo, hi, size=3)
+            if not nz or np.any(v != 0):
+                return v
+    p, w = ivec(nz=False), ivec(-3, 4)
+    if rng.random() < 0.3:
+        p, w = np.zeros(3, int), np.eye(3, dtype=int)[rng.integers(3)]      # a coordinate axis through the origin
+    q, u = ivec(nz=False), ivec(-3, 4)
+    while not np.any(np.cross(w, u) != 0):
+        u = ivec(-3, 4)
+    a = np.r_[ivec(-3, 4), rng.integers(-5, 6)]
+    while a[:3] @ w == 0:
+        a = np.r_[ivec(-3, 4), rng.integers(-5, 6)]
+    b = np.r_[ivec(-3, 4), rng.integers(-5, 6)]
+    while not np.any(np.cross(a[:3], b[:3]) != 0):
+        b = np.r_[ivec(-3, 4), rng.integers(-5, 6)]
+    T = np.eye(4)
+    T[:3, :3] = rand_rot(rng, mag=rng.uniform(0.1, 3.0))
+    T[:3, 3] = rng.uniform(-3, 3, size=3)
+    Q = p + w * int(rng.integers(1, 4))
+    return {'L6': np.r_[np.cross(w, p), w], 'M6': np.r_[np.cross(u, q), u], 'P': p, 'Q': Q if np.any(Q != p) else p + w, 'w': w,
+            'x': ivec(nz=False), 'on': p + 2 * w, 'a': a, 'b': b, 'lam': int(rng.integers(-4, 5)), 'T': T, 'Ti': rng.integers(-4, 5, size=3)}
+
+
+# ---------------------------------------------------------------------------------------------
+# histories on ONE object: evaluate every accessor -> change the held line through the list interface -> re-evaluate;
+# at every point the object must describe the line it currently holds, i.e. agree with a FRESH object built from its
+# current coordinates and with the geometry of the defining points.  Result poisoning: overwrite a returned array.
+# ---------------------------------------------------------------------------------------------
+MUTATORS = ('setitem0', 'insert0', 'pop0', 'del0', 'reverse', 'extend', 'insert-end', 'pop-last', 'setitem-last')
+ACCESSORS = ('v', 'w', 'vec', 'uw', 'pp', 'ppd', 'point', 'closest', 'contains:on', 'contains:off', 'recip', 'isparallel',
+             'SE3*L', 'intersect_plane', 'skew')
+POISON = ('pp', 'uw', 'point', 'closest', 'vec', 'SE3*L')
+
+
+def accessor_fns(L, aux):
+    x, lam, other, T, plane = aux
+    return {
+        'v': lambda: L.v, 'w': lambda: L.w, 'vec': lambda: L.vec, 'uw': lambda: L.uw, 'pp': lambda: L.pp, 'ppd': lambda: L.ppd,
+        'point': lambda: L.point(lam), 'closest': lambda: L.closest(x),
+        'contains:on': lambda: L.contains(np.array(L.pp, float) + 0.5 * np.array(L.w, float), tol=1e-6 * (1 + nrm(L.w)) * (1 + nrm(L.pp))),
+        'contains:off': lambda: L.contains(x), 'recip': lambda: L * other, 'isparallel': lambda: L.isparallel(other),
+        'SE3*L': lambda: SE3(T, check=False) * L, 'intersect_plane': lambda: L.intersect_plane(plane), 'skew': lambda: L.skew,
+    }
+
+
+def history_check(ctx, O, ops, aux, poison=None):
+    """ops: [(mutator, P, Q)] starting with ('new', P, Q).  Returns nothing; findings keyed history:<accessor> / poison:<accessor>."""
+    x, lam, other, T, plane = aux
+    rp = {'check': 'history', 'ops': [[m, hexl(P), hexl(Q)] for m, P, Q in ops], 'ops_plain': [[m, np.asarray(P).tolist(), np.asarray(Q).tolist()] for m, P, Q in ops],
+          'x_hex': hexl(x), 'lam': float(lam).hex(), 'other_hex': hexl(other.vec), 'T_hex': hexl(T), 'plane_hex': hexl(plane), 'poison': poison}
+    ctx.case(('history', tuple((m, tuple(P), tuple(Q)) for m, P, Q in ops), poison))
+    L, ref, done = None, [], []
+
+    def verify(stage):
+        cur = np.array(L.data[0], float).copy()
+        fresh = Plucker(cur.copy())
+        fa, la = accessor_fns(fresh, aux), accessor_fns(L, aux)
+        for a in ACCESSORS:
+            ctx.count('oracle:history')
+            g, r = outcome(la[a]), outcome(fa[a])
+            if not same_outcome(g, r, 1e-12):
+                ctx.fail(f'oracle:history:{a}', f"after {stage}: {a} of the object differs from {a} of a fresh Plucker built from the object's "
+                         f"current coordinates: {g[:7]} instead of {r[:7]}", dict(rp, done=list(done), accessor=a, got=list(g), fresh=list(r)))
+        # and against the geometry of the line the object now holds
+        P, Q = ref[0]
+        w = P - Q
+        S = max(nrm(P), nrm(Q), nrm(x))
+        O.close('history:geometry:pp', L.pp, foot_origin(P, w), S, dict(rp, done=list(done)), f"after {stage}: pp is not the principal point of the line now held")
+        c = L.closest(x)
+        lam_ref = (x - foot_origin(P, w)) @ w / nrm(w)
+        O.close('history:geometry:closest', c.p, foot_origin(P, w) + lam_ref * w / nrm(w), S, dict(rp, done=list(done)),
+                f"after {stage}: closest(x) is not the projection onto the line now held")
+        O.close('history:geometry:point', dist_point_line(np.array(L.point(lam), float).flatten(), P, w), 0.0, S + abs(lam), dict(rp, done=list(done)),
+                f"after {stage}: point(lam) is not on the line now held")
+
+    for m, P, Q in ops:
+        P, Q = np.asarray(P, float), np.asarray(Q, float)
+        new = Plucker.PQ(P, Q)
+        try:
+            if m == 'new':
+                L, ref = Plucker(new), [(P, Q)]
+            elif m == 'setitem0':
+                L[0] = new
+                ref[0] = (P, Q)
+            elif m == 'setitem-last':
+                L[len(L) - 1] = new
+                ref[-1] = (P, Q)
+            elif m == 'insert0':
+                L.insert(0, new)
+                ref.insert(0, (P, Q))
+            elif m == 'insert-end':
+                L.insert(len(L), new)
+                ref.insert(len(ref), (P, Q))
+            elif m == 'extend':
+                L.extend(new)
+                ref.append((P, Q))
+            elif m == 'reverse':
+                L.reverse()
+                ref.reverse()
+            elif m in ('pop0', 'del0', 'pop-last'):
+                if len(ref) < 2:
+                    continue
+                if m == 'pop0':
+                    L.pop(0)
+                    ref.pop(0)
+                elif m == 'del0':
+                    del L[0]
+                    ref.pop(0)
+                else:
+                    L.pop()
+                    ref.pop()
+        except Exception as ex:  # noqa
+            ctx.count('oracle:history')
+            ctx.fail(f'oracle:history:mutator:{m}:raises:{type(ex).__name__}', f"list operation {m} on a Plucker object raises {type(ex).__name__}: {ex}",
+                     dict(rp, done=list(done)))
+            return
+        done.append(m)
+        O.ok('history:length', len(L) == len(ref), f"after {'/'.join(done)}: the object holds {len(L)} lines, expected {len(ref)}", dict(rp, done=list(done)))
+        if len(L) != len(ref):
+            return
+        verify('/'.join(done))
+        if poison is not None:
+            # overwrite, in place, the array an accessor returned; the object must not change what it reports afterwards
+            before = np.array(L.data[0], float).copy()
+            r = accessor_fns(L, aux)[poison]()
+            arr = r.p if hasattr(r, '_fields') else (r.vec if isinstance(r, Plucker) else r)
+            try:
+                arr += 1
+            except Exception:  # noqa
+                pass
+            done.append(f'poison({poison})')
+            O.ok(f'poison:{poison}:object-coordinates', np.array_equal(before, np.array(L.data[0], float)),
+                 f"overwriting the array returned by {poison} changed the coordinates of the line", dict(rp, done=list(done)))
+            verify('/'.join(done))
+
+
+def rand_history(rng, n):
+    def pq():
+        P = rand_point(rng, 1e-2, 1e2)
+        return P, P + rand_unit(rng) * log_uniform(rng, 1e-2, 1e2)
+    ops = [('new',) + pq()]
+    for _ in range(n):
+        ops.append((MUTATORS[rng.integers(len(MUTATORS))],) + pq())
+    return ops
+
+
+def history_aux(rng):
+    T = np.eye(4)
+    T[:3, :3] = rand_rot(rng, mag=rng.uniform(0.1, 3.0))
+    T[:3, 3] = rng.uniform(-3, 3, size=3)
+    return (rand_point(rng, 1e-2, 1e2), float(rng.uniform(-5, 5)), Plucker.PointDir(rand_point(rng, 1e-2, 1e2), rand_unit(rng)), T,
+            np.r_[rand_unit(rng), rng.uniform(-2, 2)])
+
+
+def forms_and_histories(ctx):
+    rng = ctx.rng
+    O = Oracle(ctx)
+    # the z axis given as integers, rotated about x (a coordinate line of the kind every user types in)
+    T0 = np.eye(4)
+    T0[:3, :3] = [[1, 0, 0], [0, math.cos(0.3), -math.sin(0.3)], [0, math.sin(0.3), math.cos(0.3)]]
+    d0 = int_config(rng)
+    d0.update(L6=np.array([0, 0, 0, 0, 0, 1]), P=np.zeros(3, int), w=np.array([0, 0, 1]), Q=np.array([0, 0, 1]), on=np.array([0, 0, 2]), T=T0,
+              a=np.array([0, 1, 1, -2]))
+    forms_check(ctx, O, d0)
+    for _ in range(ctx.n(100, 5000)):
+        forms_check(ctx, O, int_config(rng))
+    # every mutator once after every accessor was evaluated, then random histories, then poisoning of each returned array
+    for m in MUTATORS:
+        h = rand_history(rng, 0)
+        extra = rand_history(rng, 2)
+        history_check(ctx, O, h + [('insert-end',) + extra[1][1:], (m,) + extra[2][1:]], history_aux(rng))
+    for _ in range(ctx.n(150, 8000)):
+        history_check(ctx, O, rand_history(rng, int(rng.integers(1, 7))), history_aux(rng))
+    for a in POISON:
+        for _ in range(ctx.n(8, 300)):
+            history_check(ctx, O, rand_history(rng, int(rng.integers(0, 3))), history_aux(rng), poison=a)
+
+
 def run(ctx):
     ctx.rule = ("obligations: theorems of theories/Props/C19_a.v, C19_b.v, C19_c.v over the traces regenerated from /repo; "
                 "evaluations: Sym==Num cases (generated model vs implementation) + oracle cases (one constructed configuration of "
@@ -599,6 +904,8 @@ def run(ctx):
         sym_num(ctx, g, MOD, ctx.n(20, 300))
     with ctx.timed('oracle'):
         oracle(ctx)
+    with ctx.timed('forms+histories'):
+        forms_and_histories(ctx)
 
 
 def replay(ctx, path):
@@ -625,6 +932,14 @@ def replay(ctx, path):
         O.pair(r['position'], H('p1_hex'), H('w1_hex'), H('p2_hex'), H('w2_hex'))
     elif kind == 'plane':
         O.plane(H('p0_hex'), H('n_hex'), H('P_hex'), H('w_hex'), ctx.rng)
+    elif kind == 'forms':
+        d = {k: (np.array(v, float) if k == 'T' else (int(v) if k == 'lam' else np.array(v, dtype=int))) for k, v in r['data'].items()}
+        forms_check(ctx, O, d)
+    elif kind == 'history':
+        fh = lambda hs: np.array([float.fromhex(h) for h in hs], float)
+        ops = [(m, fh(P), fh(Q)) for m, P, Q in r['ops']]
+        aux = (H('x_hex'), float.fromhex(r['lam']), Plucker(H('other_hex')), H('T_hex').reshape(4, 4), H('plane_hex'))
+        history_check(ctx, O, ops, aux, poison=r.get('poison'))
     hit = [f for f in ctx.findings if f.key == key]
     for f in ctx.findings:
         print(('REPRODUCED ' if f.key == key else 'also: ') + f.key + ': ' + f.what[:300])
